@@ -9,7 +9,7 @@ from typing import Any, Dict, Optional
 
 from .parser import Parser
 from .compiler import Compiler
-from .vm import VM, _ScriptThrow
+from .vm import VM, _ScriptThrow, js_pow
 from .values import (
     UNDEFINED,
     NULL,
@@ -490,9 +490,27 @@ class Context:
         math_obj.set("LN2", math.log(2))
         math_obj.set("LN10", math.log(10))
         math_obj.set("LOG2E", 1 / math.log(2))
-        math_obj.set("LOG10E", 1 / math.log(10))
+        math_obj.set("LOG10E", math.log10(math.e))
         math_obj.set("SQRT2", math.sqrt(2))
         math_obj.set("SQRT1_2", math.sqrt(0.5))
+
+        def integral(x, rounded):
+            """An integer-rounding result as a JavaScript number: values that
+            are integral or not finite stay themselves, a zero result keeps
+            the sign of the argument."""
+            if isinstance(x, float) and (math.isnan(x) or abs(x) >= 2**52):
+                return x
+            result = rounded(x)
+            if result == 0 and math.copysign(1, x) < 0:
+                return -0.0
+            return result
+
+        def uint32(value):
+            """ToUint32 of an argument (NaN and the infinities count as 0)."""
+            n = to_number(value)
+            if isinstance(n, float) and (math.isnan(n) or math.isinf(n)):
+                return 0
+            return int(n) & 0xFFFFFFFF
 
         # Basic functions
         def abs_fn(*args):
@@ -501,37 +519,48 @@ class Context:
 
         def floor_fn(*args):
             x = to_number(args[0]) if args else float("nan")
-            return math.floor(x)
+            return integral(x, math.floor)
 
         def ceil_fn(*args):
             x = to_number(args[0]) if args else float("nan")
-            return math.ceil(x)
+            return integral(x, math.ceil)
 
         def round_fn(*args):
             x = to_number(args[0]) if args else float("nan")
-            # JavaScript-style round (round half towards positive infinity)
-            return math.floor(x + 0.5)
+            # JavaScript-style round (round half towards positive infinity);
+            # x + 0.5 would round twice, x - floor(x) is exact
+            return integral(
+                x, lambda x: math.floor(x) + (1 if x - math.floor(x) >= 0.5 else 0)
+            )
 
         def trunc_fn(*args):
             x = to_number(args[0]) if args else float("nan")
-            return math.trunc(x)
+            return integral(x, math.trunc)
 
         def min_fn(*args):
-            if not args:
-                return float("inf")
-            nums = [to_number(a) for a in args]
-            return min(nums)
+            result = float("inf")
+            for n in [to_number(a) for a in args]:
+                if math.isnan(n):
+                    return n
+                # -0 is smaller than +0
+                if n < result or (n == 0 == result and math.copysign(1, n) < 0):
+                    result = n
+            return result
 
         def max_fn(*args):
-            if not args:
-                return float("-inf")
-            nums = [to_number(a) for a in args]
-            return max(nums)
+            result = float("-inf")
+            for n in [to_number(a) for a in args]:
+                if math.isnan(n):
+                    return n
+                # +0 is larger than -0
+                if n > result or (n == 0 == result and math.copysign(1, n) > 0):
+                    result = n
+            return result
 
         def pow_fn(*args):
             x = to_number(args[0]) if args else float("nan")
             y = to_number(args[1]) if len(args) > 1 else float("nan")
-            return math.pow(x, y)
+            return js_pow(x, y)
 
         def sqrt_fn(*args):
             x = to_number(args[0]) if args else float("nan")
@@ -541,14 +570,20 @@ class Context:
 
         def sin_fn(*args):
             x = to_number(args[0]) if args else float("nan")
+            if math.isinf(x):
+                return float("nan")
             return math.sin(x)
 
         def cos_fn(*args):
             x = to_number(args[0]) if args else float("nan")
+            if math.isinf(x):
+                return float("nan")
             return math.cos(x)
 
         def tan_fn(*args):
             x = to_number(args[0]) if args else float("nan")
+            if math.isinf(x):
+                return float("nan")
             return math.tan(x)
 
         def asin_fn(*args):
@@ -580,7 +615,10 @@ class Context:
 
         def exp_fn(*args):
             x = to_number(args[0]) if args else float("nan")
-            return math.exp(x)
+            try:
+                return math.exp(x)
+            except OverflowError:
+                return float("inf")
 
         def random_fn(*args):
             return random.random()
@@ -593,15 +631,13 @@ class Context:
                 return 1
             if x < 0:
                 return -1
-            return 0
+            return x  # a zero keeps its sign
 
         def imul_fn(*args):
             # 32-bit integer multiplication
-            a = int(to_number(args[0])) if args else 0
-            b = int(to_number(args[1])) if len(args) > 1 else 0
+            a = uint32(args[0]) if args else 0
+            b = uint32(args[1]) if len(args) > 1 else 0
             # Convert to 32-bit signed integers
-            a = a & 0xFFFFFFFF
-            b = b & 0xFFFFFFFF
             if a >= 0x80000000:
                 a -= 0x100000000
             if b >= 0x80000000:
@@ -617,13 +653,16 @@ class Context:
 
             x = to_number(args[0]) if args else float("nan")
             # Pack as 32-bit float and unpack as 64-bit
-            packed = struct.pack("f", x)
+            try:
+                packed = struct.pack("f", x)
+            except OverflowError:
+                # beyond the largest float32 the nearest value is an infinity
+                return math.copysign(float("inf"), x)
             return struct.unpack("f", packed)[0]
 
         def clz32_fn(*args):
             # Count leading zeros in 32-bit integer
-            x = int(to_number(args[0])) if args else 0
-            x = x & 0xFFFFFFFF
+            x = uint32(args[0]) if args else 0
             if x == 0:
                 return 32
             count = 0
@@ -640,24 +679,37 @@ class Context:
 
         def cbrt_fn(*args):
             x = to_number(args[0]) if args else float("nan")
-            if x < 0:
-                return -((-x) ** (1 / 3))
-            return x ** (1 / 3)
+            if x == 0 or math.isnan(x) or math.isinf(x):
+                return x
+            # one Newton step on the power estimate makes exact cubes exact
+            a = abs(x)
+            y = a ** (1 / 3)
+            y -= (y - a / (y * y)) / 3
+            return math.copysign(y, x)
 
         def log2_fn(*args):
             x = to_number(args[0]) if args else float("nan")
+            if x == 0:
+                return float("-inf")
             return math.log2(x) if x > 0 else float("nan")
 
         def log10_fn(*args):
             x = to_number(args[0]) if args else float("nan")
+            if x == 0:
+                return float("-inf")
             return math.log10(x) if x > 0 else float("nan")
 
         def expm1_fn(*args):
             x = to_number(args[0]) if args else float("nan")
-            return math.expm1(x)
+            try:
+                return math.expm1(x)
+            except OverflowError:
+                return float("inf")
 
         def log1p_fn(*args):
             x = to_number(args[0]) if args else float("nan")
+            if x == -1:
+                return float("-inf")
             return math.log1p(x) if x > -1 else float("nan")
 
         # Set all methods
